@@ -12,7 +12,7 @@ use crate::engine::{guarded, pattern, show, Limits, Report, Tier, Violation};
 use crate::exch::{ExchCfg, Gate, Menu, ServerMsg};
 use crate::exch_run::{replay_exchange, run_exchanges};
 
-pub const RULE: &str = "E1: for every N in 0..=8 (Content-Length: N; response HTTP/1.0 and 1.1; also with Connection: close on either side, an HTTP/1.0 request, and an ignored Transfer-Encoding on an HTTP/1.0 response; body followed by 3 bytes of a next response) the complete graph over (remaining, consumed, arrived) with 1-byte arrivals and read buffers 0..=N+2; close-delimited streams of 0..=6 bytes with buffers 0..=4, readiness required in every state and the must-close verdict in both successor states. E2: every N in 0..=70000 on a fresh flow: single reads with window length {0,1,N-1,N,N+1,N+3} x buffer {0,1,N-1,N,N+1}, two-step reads through the state 'one byte left', and all steps again in the completed state; large N {2^32-1,2^32+1,2^63,u64::MAX}. Part c (end to end, judged on wire bytes only): request kinds {GET, POST+Expect with the 100 read in time, POST+Expect whose 100 comes late and is skipped in RecvResponse} x N in 0..=8 x every two-window arrival schedule (first window = every prefix of the stream, then everything): the body handed out equals the N bytes after the head and the exchange consumes exactly up to the body's end; Content-Length values beyond u64 (2^64, 2^64+3, 20 and 23 digits) must be refused. distinct = distinct (N class, window class, buffer class, moved class) cells";
+pub const RULE: &str = "E1: for every N in 0..=8 (Content-Length: N; response HTTP/1.0 and 1.1; also with Connection: close on either side, an HTTP/1.0 request, and an ignored Transfer-Encoding on an HTTP/1.0 response; body followed by 3 bytes of a next response, or by a stray CRLF) the complete graph over (remaining, consumed, arrived) with 1-byte arrivals and read buffers 0..=N+2; close-delimited streams of 0..=6 bytes (HTTP/1.0, HTTP/1.1, HTTP/1.1 with Connection: keep-alive, HTTP/1.0 with an ignored Transfer-Encoding) with buffers 0..=4, readiness required in every state and the must-close verdict in both successor states. E2: every N in 0..=70000 on a fresh flow: single reads with window length {0,1,N-1,N,N+1,N+3} x buffer {0,1,N-1,N,N+1}, two-step reads through the state 'one byte left', and all steps again in the completed state; large N {2^32-1,2^32+1,2^63,u64::MAX}. Part c (end to end, judged on wire bytes only): request kinds {GET, POST+Expect with the 100 read in time, POST+Expect whose 100 comes late and is skipped in RecvResponse} x N in 0..=8 x every two-window arrival schedule (first window = every prefix of the stream, then everything): the body handed out equals the N bytes after the head and the exchange consumes exactly up to the body's end; Content-Length values beyond u64 (2^64, 2^64+3, 20 and 23 digits) must be refused. distinct = distinct (N class, window class, buffer class, moved class) cells";
 
 fn graph_cfgs() -> Vec<Arc<ExchCfg>> {
     let mut out = Vec::new();
@@ -48,7 +48,10 @@ fn graph_cfgs() -> Vec<Arc<ExchCfg>> {
             if req_close {
                 rq = rq.orig("connection", "close");
             }
-            let mut cfg = ExchCfg::new("C08", rq, vec![], vec![ServerMsg { msg, gate: Gate::AfterBody }], b"HTT".to_vec(), menu).expect("cfg");
+            // what follows the body on the wire: the start of a next response, or (variant with X-Request-Id)
+            // a stray CRLF first - neither belongs to this body
+            let trailing: &[u8] = if extra.iter().any(|(k, _)| *k == "X-Request-Id") { b"\r\nH" } else { b"HTT" };
+            let mut cfg = ExchCfg::new("C08", rq, vec![], vec![ServerMsg { msg, gate: Gate::AfterBody }], trailing.to_vec(), menu).expect("cfg");
             cfg.scope = scope;
             if n > 0 {
                 cfg.start_at = Some("RecvBody");
@@ -58,11 +61,16 @@ fn graph_cfgs() -> Vec<Arc<ExchCfg>> {
             out.push(Arc::new(cfg));
         }
     }
-    for ver in ["1.1", "1.0", "1.0-te"] {
+    for ver in ["1.1", "1.0", "1.0-te", "1.1-keep-alive"] {
         // close-delimited (also: HTTP/1.0 response whose Transfer-Encoding: chunked does not count)
         for len in 0..=6usize {
             for status in [200u16, 404, 205] {
-                let (ver, fields): (&str, Vec<(String, Vec<u8>)>) = if ver == "1.0-te" { ("1.0", vec![("Transfer-Encoding".into(), b"chunked".to_vec())]) } else { (ver, vec![]) };
+                let (ver, fields): (&str, Vec<(String, Vec<u8>)>) = match ver {
+                    "1.0-te" => ("1.0", vec![("Transfer-Encoding".into(), b"chunked".to_vec())]),
+                    // asking to keep the connection does not give the body a length
+                    "1.1-keep-alive" => ("1.1", vec![("Connection".into(), b"keep-alive".to_vec())]),
+                    v => (v, vec![]),
+                };
                 let msg = RespMsg { version: ver.into(), status, reason: "OK".into(), fields, body: RespBody::Raw(pattern(len)) };
                 let mut menu = Menu::default_large();
                 menu.arrive = vec![1];
